@@ -400,6 +400,9 @@ func Generate(r *rand.Rand, profile string, concurrent bool, av Avoid) *Plan {
 					o.D = 2
 				}
 			}
+			if (profile == "affinity" || profile == "fallback") && r.IntN(15) == 0 {
+				o.F |= FlagStream // C12: the first message of a stream is visible to the picker
+			}
 			if profile == "chaos" {
 				if r.IntN(12) == 0 {
 					o.F |= FlagNoGCP
